@@ -431,6 +431,11 @@ def _result_sites(prog, f, kinds):
     return [st for st in all_sites2(prog) if st.top is f and st.it is it and st.kind in kinds and st.call in returned]
 
 
+def _deep_sub(it, t):
+    from ..symx import deep_subterms
+    return deep_subterms(it, t)
+
+
 def _structural(ctx) -> None:
     """>> / << / .T / t[i] on the symx returns and construction sites (helpers in line)."""
     from ..sites2 import all_sites2, comp_parts, interp_of, leaves, strip_seq
@@ -523,6 +528,21 @@ def _structural(ctx) -> None:
                                      f"cell would be split into characters")
     if not n:
         raise AnalysisError("Vector.__lshift__: no result construction found")
+    # row << table: a table on the right is handed to Table.__rlshift__ (Python tries it by itself only for a plain Vector on the left):
+    # no result of Vector.__lshift__ that concatenates other's storage is reachable for a two-dimensional operand
+    und_o = ("attr", OTHER, "_underlying")
+    two_d = lambda c: c[0] == "cmp" and c[1] == "Eq" and ("const", "int", 2) in (c[2], c[3]) and ("call", ("attr", OTHER, "ndims"), (), ()) in (c[2], c[3])
+    flat = []
+    for st in _result_sites(prog, vl, ("Vector", "cls", "copy")):
+        if any(x == und_o for d in leaves(st.data) for x in _deep_sub(st.it, d)):
+            excluded_2d = any((not pol) and any(two_d(x) for x in subterms(t)) for t, pol in st.ev.conds)
+            if not excluded_2d:
+                flat.append(st)
+    handed = [e for e in it.events if e.kind == "return" and e.term[0] == "call" and e.term[1] == ("attr", OTHER, "__rlshift__")]
+    ctx.ob("e.structural-ops", vl, "table-operand-handed-over", not flat and bool(handed),
+           "vector << table is handed to Table.__rlshift__", (flat[0].node if flat else vl.node),
+           message="Vector.__lshift__ concatenates the storage of a Table operand - its column vectors: Vector([0, 0]) << t (any typed vector or Row "
+                   "on the left) is the flat vector [0, 0, <column a>, <column b>] instead of t with one more row on top")
     if not one_cell:
         probs.append("a scalar (or string) is not appended as ONE element")
     ctx.ob("e.structural-ops", vl, "append-cell", not probs, "<< spreads only real sequences; strings and scalars are one cell", vl.node,
@@ -675,6 +695,8 @@ def _structural(ctx) -> None:
 
 _T, _V = "table", "vector"
 MUTANTS = [
+    dict(id="lshift-table-operand-concatenated", module="vector", old="		if isinstance(other, Vector) and other.ndims() == 2 and self.ndims() != 2:",
+         new="		if False:", rules=["e.structural-ops"], desc="reverts fix 41fe18d"),
     dict(id="vector-data-truth-tested", module="vector", old="		elif isinstance(initial, Vector) and initial.ndims() <= 1:", new="		elif False:",
          rules=["e.structural-ops"], desc="reverts fix ab17af0: Table({'a': v}) raises TypeError"),
     dict(id="rshift-typesafe-guard-back", module="vector",
